@@ -119,7 +119,7 @@ def run(ctx):
     from . import c11
     r4 = Rule("R12.4", "what a type copies from a type of another module does not depend on which module was processed first (module-wide pass barriers)", floor=1)
     c11.module_barriers_rule(prog, tab.get("module_barriers", []), r4)
-    return [ra, rb, rc, rd, r12_2(prog, scope), r12_3(prog), r4, r12_5(prog, tab), r12_6(prog, tab), r12_7(prog, tab)]
+    return [ra, rb, rc, rd, r12_2(prog, scope), r12_3(prog), r4, r12_5(prog, tab), r12_6(prog, tab), r12_7(prog, tab), r12_8(prog)]
 
 
 def r12_6(prog, tab):
@@ -300,6 +300,51 @@ def r12_7(prog, tab=None, rid="R12.7"):
             else:
                 r.bad(f, key, "`%s` points into the static buffer of %s; %s (line %s) refills that buffer and `%s` is used again at line %s: it now "
                               "reads the other text" % (vid.split("@")[0], o, bad[1][1], bad[1][0], vid.split("@")[0], bad[0]), e["line"])
+    return r
+
+
+def r12_8(prog):
+    """A temporary output file is renamed into place or removed.  The code generator writes every file under a temporary
+    name obtained from asn1c_open_file(.., &tmpname) and then either renames it over the target or, when the contents
+    are unchanged, unlinks it.  On every path from the open call to a successful return (constant 0) there is a
+    rename() or unlink() of that very name.  A temporary that stays behind makes the contents of the output directory
+    depend on how often (and with which random suffixes) asn1c was run into it."""
+    from .c15 import must_pass
+    from ..model import const_of
+    r = Rule("R12.8", "every temporary output file is renamed into place or unlinked before a successful return", floor=2)
+    for f in sorted(prog.funcs.values(), key=lambda f: f.key):
+        if "libasn1compiler/" not in f.relfile:
+            continue
+        for b, i, e in f.calls():
+            if e.get("callee") != "asn1c_open_file":
+                continue
+            outs = []
+            for a in e.get("args", []):
+                t = strip_casts(a.get("tree"))
+                if isinstance(t, list) and t and t[0] == "un" and t[1] == "&" and is_var(t[2]):
+                    outs.append(strip_casts(t[2])[1])
+            for v in outs:
+                key = "tmp:%s" % v.split("@")[0]
+
+                def disposes(y, v=v):
+                    return y["k"] == "call" and y.get("callee") in ("rename", "unlink") and any(is_var(a.get("tree"), v) for a in y.get("args", []))
+                bad = None
+                for rb, ri, re_ in f.returns():
+                    ex = re_.get("expr")
+                    if not (ex and const_of(ex["tree"]) == 0):
+                        continue
+                    if rb.id != b.id and rb.id not in f.reachable_from(b.succs()):
+                        continue
+                    if any(disposes(y) for y in b.ev[i + 1:]):
+                        continue
+                    if not all(must_pass(f, s_, rb.id, ri, disposes) for s_ in b.succs()):
+                        bad = re_
+                        break
+                if bad is None:
+                    r.ok(f, key, "renamed or unlinked on every path to a successful return", e["line"])
+                else:
+                    r.bad(f, key, "the successful return at line %s can be reached with the temporary file `%s` neither renamed nor unlinked: it "
+                                  "stays in the output directory under its random name" % (bad.get("line"), v.split("@")[0]), e["line"])
     return r
 
 
